@@ -37,10 +37,14 @@ func (o obKind) String() string {
 
 // Step kinds.
 const (
-	kLock      = "lock"
-	kSet       = "set"
-	kDel       = "del"
-	kInsert    = "insert"
+	kLock   = "lock"
+	kSet    = "set"
+	kDel    = "del"
+	kInsert = "insert"
+	// kPut: a write through the membuffer with key flags, as a SQL layer does an insert of a row whose key it has
+	// locked before: SetWithFlags(k, v, SetNewlyInserted [, SetPresumeKeyNotExists] [, SetAssertNotExist]),
+	// optionally followed by Delete(k) in the same transaction (insert-then-delete)
+	kPut       = "put"
 	kAggStart  = "agg-start"
 	kAggRetry  = "agg-retry"
 	kAggCancel = "agg-cancel"
@@ -65,6 +69,10 @@ type Step struct {
 	MidDrain bool
 	// Ctx is the context discipline of the API call(s) of this step that take a context
 	Ctx ctxKind
+	// kPut: membuffer flags of the write (bit 0 NewlyInserted, bit 1 PresumeKeyNotExists, bit 2 AssertNotExist)
+	// and whether the key is deleted again right away
+	MemFlags int
+	ThenDel  bool
 }
 
 // ctxKind is what the caller does with the context it passes to one API call.
@@ -125,6 +133,22 @@ func (s Step) String() string {
 	}
 	if s.NoLockFirst {
 		b.WriteString("{nolock}")
+	}
+	if s.Kind == kPut {
+		var o []string
+		if s.MemFlags&1 != 0 {
+			o = append(o, "newly-inserted")
+		}
+		if s.MemFlags&2 != 0 {
+			o = append(o, "presume-not-exists")
+		}
+		if s.MemFlags&4 != 0 {
+			o = append(o, "assert-not-exist")
+		}
+		if s.ThenDel {
+			o = append(o, "then-delete")
+		}
+		fmt.Fprintf(&b, "{%s}", strings.Join(o, ","))
 	}
 	if s.Ob != obNone {
 		rel := "rb"
@@ -308,6 +332,42 @@ func (g *gen) insertStep(exists map[string]bool, canDeadlock bool) Step {
 	return s
 }
 
+// putStep is a flagged write (insert as a SQL layer does it after it has locked the key), half of the time
+// deleted again in the same transaction.
+func (g *gen) putStep(k string) Step {
+	s := Step{Kind: kPut, Keys: []string{k}, MemFlags: 1, ThenDel: g.rng.Intn(2) == 0}
+	switch g.rng.Intn(6) {
+	case 0:
+		s.MemFlags = 0 // plain Set(+Delete)
+	case 1:
+		s.MemFlags |= 2
+	case 2:
+		s.MemFlags |= 4
+	}
+	return s
+}
+
+// lockThenPut: LockKeys(k) with one of the option combinations on an absent (mostly) or present key, then the
+// flagged write of that key.
+func (g *gen) lockThenPut(p *Program, canDeadlock bool) {
+	var absent []string
+	for _, k := range keys {
+		if !p.Exists[k] {
+			absent = append(absent, k)
+		}
+	}
+	k := g.key()
+	if len(absent) > 0 && g.rng.Intn(100) < 65 {
+		k = absent[g.rng.Intn(len(absent))]
+	}
+	s := Step{Kind: kLock, Keys: []string{k}, Topo: g.topo()}
+	g.lockOpts(&s)
+	if g.rng.Intn(100) < 15 {
+		g.obstacle(&s, p.Exists, canDeadlock)
+	}
+	p.Steps = append(p.Steps, s, g.putStep(k))
+}
+
 // Next generates one program.
 func (g *gen) Next(seed int64, pess bool) *Program {
 	p := &Program{Seed: seed, Pess: pess, Exists: map[string]bool{}}
@@ -390,6 +450,9 @@ func (g *gen) pessimistic(p *Program) {
 			}
 			p.Steps = append(p.Steps, s)
 			locked++
+		case x < 80:
+			g.lockThenPut(p, can)
+			locked++
 		default:
 			g.aggressive(p, can)
 			locked++
@@ -432,6 +495,7 @@ func (g *gen) aggressive(p *Program, canDeadlock bool) {
 	p.Steps = append(p.Steps, Step{Kind: kAggStart})
 	attempts := 1 + g.rng.Intn(3)
 	var prev []string
+	var after []Step
 	for a := 0; a < attempts; a++ {
 		if a > 0 {
 			p.Steps = append(p.Steps, Step{Kind: kAggRetry, Topo: g.topo()})
@@ -458,6 +522,14 @@ func (g *gen) aggressive(p *Program, canDeadlock bool) {
 			}
 			cur = append(cur, s.Keys[0])
 			p.Steps = append(p.Steps, s)
+			if a == attempts-1 && len(s.Keys) == 1 && g.rng.Intn(100) < 30 {
+				// the statement writes the row whose key it has just locked: inside the stage or after it
+				if g.rng.Intn(2) == 0 {
+					p.Steps = append(p.Steps, g.putStep(s.Keys[0]))
+				} else {
+					after = append(after, g.putStep(s.Keys[0]))
+				}
+			}
 		}
 		prev = cur
 	}
@@ -466,6 +538,7 @@ func (g *gen) aggressive(p *Program, canDeadlock bool) {
 	} else {
 		p.Steps = append(p.Steps, Step{Kind: kAggDone, Topo: g.topo()})
 	}
+	p.Steps = append(p.Steps, after...)
 }
 
 func (g *gen) endObstacle(p *Program, cands []string) {
@@ -499,6 +572,10 @@ func (g *gen) optimistic(p *Program) {
 		case x < 80:
 			s := g.insertStep(p.Exists, false)
 			s.Ob, s.ObKey = obNone, ""
+			p.Steps = append(p.Steps, s)
+			written = append(written, s.Keys[0])
+		case x < 88:
+			s := g.putStep(g.key())
 			p.Steps = append(p.Steps, s)
 			written = append(written, s.Keys[0])
 		default:
